@@ -36,8 +36,16 @@ def _count_cmp(g):
     if g[0] != 'cmp':
         return g
     op, l, r = g[1], g[2], g[3]
-    if l[0] == 'const' and r[0] == 'cnt':
+    if l[0] == 'const' and r[0] in ('cnt', 'jcnt'):
         op, l, r = _FLIP[op], r, l
+    if l[0] == 'jcnt' and r[0] == 'const' and isinstance(r[1], int) and not isinstance(r[1], bool):
+        # a joint count inside a non-empty stratum is zero exactly when the conditional probability count / size of the stratum is zero
+        p = K('prob', frozenset([(l[1], l[2]), (l[3], l[4])]), frozenset([(l[3], l[4])]), l[5])
+        if (op, r[1]) in (('!=', 0), ('>', 0), ('>=', 1)):
+            return K('cmp', '!=', p, K('const', 0))
+        if (op, r[1]) in (('==', 0), ('<', 1), ('<=', 0)):
+            return K('cmp', '==', p, K('const', 0))
+        return K('cmp', op, l, r)
     if l[0] == 'cnt' and r[0] == 'const' and isinstance(r[1], int) and not isinstance(r[1], bool):
         if (op, r[1]) in (('>', 1), ('>=', 2)):
             return K('cmp', '!=', l, K('const', 1))
@@ -428,6 +436,16 @@ class Interp:
         if d.startswith(self.m.name + '.') and fname in self.funcs:
             if len(args) == 2 and {args[0][0], args[1][0]} == {'vec'} and args[0][1] != args[1][1] and self.is_identity_helper(fname):
                 return K('flag', False)      # a verified element-wise identity predicate, on the path of a non-identical pair
+            if e.keywords:
+                # keyword arguments are bound to the callee's parameters by name
+                params = [a.arg for a in self.funcs[fname].args.args]
+                slots = dict(zip(params, args))
+                for k in e.keywords:
+                    if k.arg is None or k.arg not in params or k.arg in slots:
+                        raise Unknown(f'call {ast.unparse(e.func)}(... {k.arg}=...)', e)
+                    slots[k.arg] = self.ev(k.value, env)
+                if all(p_ in slots for p_ in params):
+                    args = [slots[p_] for p_ in params]
             return self.run(fname, args, e)
         raise Unknown(f'call {ast.unparse(e.func)}(...)', e)
 
@@ -446,7 +464,7 @@ class Interp:
 
     def block(self, body, env, st):
         for s in body:
-            if st['ret'] is not None:
+            if st['ret'] is not None or st.get('skip_rest'):
                 return
             self.stmt(s, env, st)
 
@@ -599,6 +617,9 @@ class Interp:
                 self.stmt(b, env, st)
                 if st['ret'] is not None:
                     raise Unknown('return inside a loop', b)
+                if st.pop('skip_rest', False):
+                    # an unconditional `continue` on this path (reached through a test decided by the correction flag): the rest of the body is not run
+                    break
             for n in manual:
                 tops = [b for b in s.body if isinstance(b, ast.AugAssign) and isinstance(b.target, ast.Name) and b.target.id == n]
                 if len(tops) != 1 or not (isinstance(tops[0].op, ast.Add) and isinstance(tops[0].value, ast.Constant) and tops[0].value.value == 1):
@@ -649,6 +670,9 @@ class Interp:
             return
         if isinstance(s, ast.Return):
             st['ret'] = self.ev(s.value, env)
+            return
+        if isinstance(s, ast.Continue) and st.get('loops'):
+            st['skip_rest'] = True
             return
         raise Unknown(f'statement {type(s).__name__}: {ast.unparse(s)[:60]}', s)
 
